@@ -8,6 +8,7 @@ CONSTANTS
   MutClosingFirst = FALSE
   MutSharedCtx = FALSE
   MutEarlyReturn = FALSE
+  MutCheckThenClose = FALSE
 CONSTRAINT HighWater
 POSTCONDITION Accepted
 INVARIANTS NoAddDuringWait ClosingAfterInner DropJustified InOrderOnce NothingLostSilently OutClosedAfterIn CloseComplete
